@@ -80,7 +80,7 @@ def c09(report, cfg):
             else:
                 report.violated("R9.1", key,
                                 "%s: ciphertext byte %d bit %d differs from Skein 1.3 Threefish (first difference; got %s, expected %s)"
-                                % (name, i // 8, i % 8, bv.show_bit(got[i], 3), bv.show_bit(exp[i], 3)))
+                                % (name, i // 8, i % 8, bv.show_bit(got[i], 3)[:300], bv.show_bit(exp[i], 3)[:300]), graphs=(got, exp))
         engine_guard(go, report, "R9.1", key)
         # new() == with_tweak(key, 0, 0)
         nkey = "%s::new@%s" % (name, cfg)
@@ -134,5 +134,5 @@ def c10(report, cfg):
                     report.ok("R10.1", key, sample={"cipher": name, "order": order, "config": cfg, "subkeys": "symbolic"})
                 else:
                     report.violated("R10.1", key, "%s %s: byte %d bit %d is %s, not the original block bit"
-                                    % (name, order, i // 8, i % 8, bv.show_bit(got[i], 3)))
+                                    % (name, order, i // 8, i % 8, bv.show_bit(got[i], 3)[:300]), graphs=(got, bbits))
             engine_guard(go, report, "R10.1", key)
